@@ -44,6 +44,12 @@ def gen(rng, tier):
             else:
                 ops.append({'op': 'sleep', 'd': rng.choice([0.001, 0.01])})
         callers.append({'ops': ops})
+    if rng.random() < 0.5:
+        # the late "result" of an abandoned request may just as well be an error
+        allx = [op['x'] for c in callers for op in c['ops'] if op['op'] == 'call'] + [x for c in callers for op in c['ops'] if op['op'] == 'stream' for x in op['xs']]
+        if allx:
+            lf = rng.choice(servers.leaves(tree))
+            lf['fail'] = {'xs': sorted(rng.sample(allx, min(len(allx), rng.choice([1, 2, 4, 8])))), 'exc': rng.choice(['ExcA', 'ExcB', 'KeyError'])}
     sc = {'tree': tree, 'capacity': rng.choice([1, 1, 1, 2, 3, 4, 8]), 'async': is_async, 'callers': callers,
           'post': [next(nxt) for _ in range(rng.choice([1, 2, 3]))]}
     cfg = swarm(rng, racy=0.6, line=0.4, max_time=500.0, max_steps=600_000)
